@@ -76,3 +76,38 @@ func Off(base, p []byte) int {
 	}
 	return int(d)
 }
+
+// TrapSpare places b so that it ends gap bytes in front of a page boundary and gives the slice spare capacity
+// that reaches over that boundary to the end of the following (mapped) page. readonly: every write - into the
+// data or into the spare capacity - faults. The bytes behind len(b) are 0xa5.
+func TrapSpare(b []byte, gap int, readonly bool) *Trap {
+	n := len(b) + gap
+	pages := (n + pageSize - 1) / pageSize
+	if pages == 0 {
+		pages = 1
+	}
+	total := (pages + 3) * pageSize // guard, data pages, one spare page, guard
+	region, err := syscall.Mmap(-1, 0, total, syscall.PROT_READ|syscall.PROT_WRITE, syscall.MAP_ANON|syscall.MAP_PRIVATE)
+	if err != nil {
+		panic("harness: mmap: " + err.Error())
+	}
+	data := region[pageSize : pageSize+(pages+1)*pageSize]
+	for i := range data {
+		data[i] = 0xa5
+	}
+	end := pages*pageSize - gap
+	s := data[end-len(b) : end : len(data)]
+	copy(s, b)
+	if err := syscall.Mprotect(region[:pageSize], syscall.PROT_NONE); err != nil {
+		panic("harness: mprotect: " + err.Error())
+	}
+	if err := syscall.Mprotect(region[pageSize+(pages+1)*pageSize:], syscall.PROT_NONE); err != nil {
+		panic("harness: mprotect: " + err.Error())
+	}
+	if readonly {
+		if err := syscall.Mprotect(data, syscall.PROT_READ); err != nil {
+			panic("harness: mprotect: " + err.Error())
+		}
+	}
+	return &Trap{region: region, B: s}
+}
